@@ -90,7 +90,8 @@ InterpreterEnv::InterpreterEnv(std::vector<valtype>& stack_in, const CScript& sc
 
     operational = true;
     set_error(serror, SCRIPT_ERR_UNKNOWN_ERROR);
-    if (script.size() > MAX_SCRIPT_SIZE) {
+    // the script size limit applies to legacy and segwit v0 scripts only (BIP342 lifts it for tapscript)
+    if ((sigversion == SigVersion::BASE || sigversion == SigVersion::WITNESS_V0) && script.size() > MAX_SCRIPT_SIZE) {
         set_error(serror, SCRIPT_ERR_SCRIPT_SIZE);
         operational = false;
         return;
@@ -196,6 +197,8 @@ bool StepScript(InterpreterEnv& env)
 
             const valtype& pubKeySerialized = stack.back();
             CScript pubKey2(pubKeySerialized.begin(), pubKeySerialized.end());
+            if (pubKey2.size() > MAX_SCRIPT_SIZE)
+                return set_error(serror, SCRIPT_ERR_SCRIPT_SIZE);
             script = pubKey2;
             popstack(stack);
 
@@ -209,6 +212,8 @@ bool StepScript(InterpreterEnv& env)
     }
 
     if (env.successor_script.size()) {
+        if (env.successor_script.size() > MAX_SCRIPT_SIZE)
+            return set_error(serror, SCRIPT_ERR_SCRIPT_SIZE);
         script = env.successor_script;
         env.successor_script.clear();
         pc = env.pbegincodehash = script.begin();
